@@ -426,6 +426,8 @@ def sequences(ctx):
     twins = [['name eq "bob"', 'Name eq "bob"', 'NAME eq "bob"', 'name eq "bob"', 'Name eq "al"'], ['x eq 1 and y eq 2', 'x eq 1 AND y eq 2', 'X eq 1 and y eq 2', 'x eq 1 and y eq 2', 'X eq 5 and y eq 2'],
              ['x eq true', 'x eq TRUE', 'x eq True'], ['x pr', 'x PR', 'X pr', 'x Pr'], ['tier eq 1 or region eq "eu"', 'Tier eq 1 or Region eq "eu"', 'TIER eq 1 or REGION eq "eu"'],
              ['x eq null', 'x eq NULL', 'X eq null'], ['not (x eq 2)', 'NOT (x eq 2)', 'Not (x eq 2)', 'NOT (X eq 2)'], ['x in [1]', 'x IN [1]', 'X in [1]', 'x In [1]']]
+    twins += [['tier eq 1 or plan gt null', 'Tier eq 1 or plan gt null', 'TIER eq 1 or plan gt null', 'tier eq 1 or plan gt null'], ['Tier eq 1 or plan gt null', 'tier eq 1 or plan gt null'],
+              ['x co 1 or y eq 2', 'X co 1 or y eq 2', 'x CO 1 or y eq 2'], ['name eq "bob" and region gt true', 'Name eq "bob" and region gt true', 'name eq "bob" and Region gt true']]
     for tw in twins:
         seqs.append([(t, ob) for t in tw])
         seqs.append([(t, ob) for t in reversed(tw)])
@@ -864,4 +866,23 @@ def literal_spellings(ctx):
             out.append(('x eq %s' % l1, 'y eq %s' % l2, o))
             out.append(('x ne %s' % l1, 'x eq %s' % l2, o))
             out.append(('x in [%s]' % l1, 'x eq %s' % l2, o) if not l1.startswith('t') and '.' not in l1[1:-1].replace('.', '', 1) or True else ('x eq %s' % l1, 'x eq %s' % l2, o))
+    return out
+
+
+def key_twins(ctx):
+    """the rule spells a name one way, the object only has a look-alike key (hyphen / underscore / colon / dot / case / blank):
+    a missing step stays missing.  Also keys that spell a whole dotted path.  (text, obj, fam)"""
+    out = []
+    pairs = [('user-agent', 'user_agent'), ('user_agent', 'user-agent'), ('x-id', 'x_id'), ('a:b', 'a_b'), ('a-b', 'a:b'), ('hdr-s', 'hdr_s'), ('UserAgent', 'useragent'), ('user-agent', 'userAgent'), ('a-b', 'ab'), ('a_b', 'a b')]
+    for (r, k) in pairs:
+        for o in (obj({k: S('curl'), 'z': I(1)}), obj({'req': {k: I(7), k + 'x': I(1)}, 'z': I(1)}), obj({'req': {k: {'n': I(1)}}}), obj({r: ('nil',), k: I(1)})):
+            for t in ['%s pr' % r, '%s eq null' % r, '%s ne null' % r, '%s eq "curl"' % r, 'req.%s pr' % r, 'req.%s eq 7' % r, 'req.%s.n pr' % r, 'req.%s.n eq 1 or z eq 1' % r, 'not (%s pr)' % r, 'req.%s eq null' % r]:
+                out.append((t, o, 'key-twins'))
+    # keys that contain dots: a path is walked step by step, never looked up as one key
+    dotted = [obj({'a': {'c': I(1)}, 'a.b': ('b', True)}), obj({'a.b': I(1)}), obj({'geo': {'city.name': S('Oslo'), 'x': I(1)}}), obj({'geo': {'city': {'x': I(1)}, 'city.name': S('Oslo')}}), obj({'a': {'b.c': I(1), 'b': {'d': I(2)}}}),
+              obj({'a.b.c': I(1), 'a': {'b': ('nil',)}}), obj({'geo.city.name': S('Oslo'), 'geo': {}})]
+    for o in dotted:
+        for t in ['a.b pr', 'a.b ne null', 'a.b eq true', 'a.b eq null', 'a.b eq 1', 'geo.city.name pr', 'geo.city.name eq "Oslo"', 'geo.city.name eq null', 'a.b.c pr', 'a.b.c eq 1', 'a.b.c eq null', 'a.b.d eq 2', 'not (geo.city.name pr)',
+                  'geo.x eq 1 or geo.city.name pr']:
+            out.append((t, o, 'dotted-keys'))
     return out
